@@ -37,7 +37,7 @@ B == INSTANCE Board
 \* number of searches launched and never halted (a leak counter), the options, the size of the
 \* table in use and the number of tables made so far, and the limit the held search runs under
 NewEngine(bd, depth, hash) ==
-  [bd |-> bd, active |-> FALSE, root |-> <<>>, live |-> 0, depth |-> depth, hash |-> hash,
+  [bd |-> bd, active |-> FALSE, root |-> <<>>, live |-> 0, depth |-> depth, hash |-> hash, noise |-> 0,
    ttsize |-> hash, tables |-> IF hash > 0 THEN 1 ELSE 0, limit |-> 0]
 
 HaltIfActive(s) == IF s.active THEN [s EXCEPT !.active = FALSE, !.root = <<>>, !.live = @ - 1] ELSE s
@@ -67,6 +67,7 @@ Analyze(s, req) ==
 
 SetDepth(s, d) == [s |-> [s EXCEPT !.depth = d], err |-> FALSE]
 SetHash(s, h) == [s |-> [s EXCEPT !.hash = h], err |-> FALSE]
+SetNoise(s, n) == [s |-> [s EXCEPT !.noise = n], err |-> FALSE]
 
 Halt(s) ==
   IF ~s.active THEN [s |-> s, err |-> TRUE] ELSE [s |-> HaltIfActive(s), err |-> FALSE]
